@@ -102,6 +102,46 @@ func (C20) Generate(rng *rand.Rand, tier string) []core.Case {
 		}
 		rops = append(rops, fmt.Sprintf("rs.run single=%d shards=%s", single, strings.Join(sh, ";")))
 	}
+	// multi-shard list: the union of the per-shard streams, one error per failing shard
+	var lops []string
+	for i := 0; i < nr; i++ {
+		k := 1 + rng.Intn(4)
+		single := 0
+		if rng.Intn(4) == 0 {
+			single = 1
+		}
+		var sh []string
+		for j := 0; j < k; j++ {
+			if rng.Intn(6) == 0 {
+				sh = append(sh, "e")
+				continue
+			}
+			var items []string
+			nk := 0
+			for b := rng.Intn(4); b > 0; b-- {
+				var ks []string
+				for q := 1 + rng.Intn(3); q > 0; q-- {
+					nk++
+					ks = append(ks, fmt.Sprintf("k%d%d", j, nk))
+				}
+				items = append(items, strings.Join(ks, "."))
+			}
+			if rng.Intn(5) == 0 {
+				items = append(items, "x")
+				if rng.Intn(2) == 0 {
+					items = append(items, fmt.Sprintf("late%d", j))
+				}
+			}
+			if len(items) == 0 {
+				sh = append(sh, "_")
+			} else {
+				sh = append(sh, strings.Join(items, "+"))
+			}
+		}
+		lops = append(lops, fmt.Sprintf("ls.run single=%d shards=%s", single, strings.Join(sh, ";")))
+	}
+	cases = append(cases, core.Case{Name: "list-cancel", Ops: []string{"ls.cancel shards=2", "ls.cancel shards=4"}})
+	cases = append(cases, core.Case{Name: "list-fan-out", Ops: append([]string{"ls.run single=0 shards=k1.k2+k3;e;k4+x+k5;_"}, lops...)})
 	cases = append(cases, core.Case{Name: "range-scan-errors", Ops: append([]string{"rs.run single=1 shards=e", "rs.run single=0 shards=k1+k2;e"}, rops...)})
 	nw := 12
 	if tier == "thorough" {
@@ -731,6 +771,10 @@ func c20op(op string) string {
 		return c20Stream(kv)
 	case "rs.run":
 		return c20RangeScan(kv)
+	case "ls.run":
+		return c20List(kv)
+	case "ls.cancel":
+		return c20ListCancel(op, kv)
 	}
 	return "bad-op"
 }
@@ -761,6 +805,14 @@ func (C20) Oracle(ops, impl, model []string) string {
 		case "b.run":
 			if msg := c20BatcherOracle(kv, out, strings.HasPrefix(impl[i], "~")); msg != "" {
 				return fmt.Sprintf("op %d: %s (%s)", i, msg, out)
+			}
+		case "ls.cancel":
+			if !strings.HasPrefix(out, "closed=true errs="+kv["shards"]+" ") {
+				return fmt.Sprintf("op %d: a list over %s shards whose caller cancels the context while the shards are still sending: %q (every shard's stream ends with the cancellation error; the channel has to be closed after all of them have been delivered)", i, kv["shards"], out)
+			}
+		case "ls.run":
+			if want := c20ListExpected(kv); out != want {
+				return fmt.Sprintf("op %d: a list over the shards %s delivers %q; the union of what the shards deliver is %q", i, kv["shards"], out, want)
 			}
 		case "rs.run":
 			if strings.HasPrefix(out, "closed=false") {
